@@ -112,6 +112,8 @@ func (h *Harness) CountStats(e *Engine) {
 	r.Count("panicking_invocations", int64(st.Panics))
 	r.Count("mid_publish_cancels", int64(st.Cancels))
 	r.Count("trace_events", int64(len(e.Trace)))
+	r.Count("publishes_from_inside_hooks", int64(st.HookPubs))
+	r.Count("publishes_from_inside_the_panic_handler", int64(st.PHPubs))
 	r.Count("replay_subscriptions", int64(st.ReplaySubs))
 	r.Count("replay_phase_deliveries", int64(st.ReplayDeliveries))
 	r.Max("max_reentrancy_depth", int64(st.MaxDepth))
